@@ -1296,6 +1296,9 @@ class MatrixModel:
             "sympy.sqrt": one(lambda x: self.func("sqrt", x)), "sympy.conjugate": one(lambda x: self.func("conj", x)),
             "sympy.transpose": one(lambda x: self.func("transpose", x)), "sympy.adjoint": one(lambda x: self.func("adjoint", x)),
             "sympy.sympify": one(lambda x: x), "sympy.S": one(lambda x: x),
+            # the singletons ARE these numbers
+            "sympy.S.Zero": self.wrap(RF.const(0)), "sympy.S.One": self.wrap(RF.const(1)), "sympy.S.NegativeOne": self.wrap(RF.const(-1)),
+            "sympy.S.Half": self.wrap(RF.const(Fraction(1, 2))), "sympy.S.ImaginaryUnit": unit,
             "sympy.Matrix.eye": eye, "sympy.Matrix.zeros": zeros, "sympy.Matrix.diag": diag, "sympy.MutableDenseMatrix.eye": eye, "sympy.MutableDenseMatrix.zeros": zeros,
             "sympy.symbols": symbols,
             "sympy.Symbol": symbol, "sympy.IndexedBase": indexed_base, "sympy.Rational": rational, "sympy.Integer": rational, "sympy.Float": rational,
